@@ -4,6 +4,7 @@
    `_find_sector` and `point_polar_to_cart` are built on. -/
 import Earverif.Proofs.C19Real
 import Earverif.Proofs.C19Round
+import Earverif.Proofs.C19Extent
 
 namespace Earverif.Conv
 
@@ -121,5 +122,25 @@ theorem pointPolarToCart_periodic (m : Nat) (az el d : ℝ) (t : ℤ)
 /-- non-vacuity: 545° (= 185 + 360) and 185° with fuel 3 -/
 example : pointPolarToCart (RP 3) (185 + 360 * (1 : ℤ)) 10 1 = pointPolarToCart (RP 3) 185 10 1 := by
   apply pointPolarToCart_periodic 2 <;> norm_num
+
+/-- every real azimuth is a representative in `[-180, 180)` plus whole turns -/
+theorem az_representative (az : ℝ) : ∃ (az0 : ℝ) (t : ℤ), az = az0 + 360 * t ∧ -180 ≤ az0 ∧ az0 < 180 := by
+  refine ⟨az - 360 * ⌊(az + 180) / 360⌋, ⌊(az + 180) / 360⌋, by ring, ?_, ?_⟩
+  · have := Int.floor_le ((az + 180) / 360); linarith
+  · have := Int.lt_floor_add_one ((az + 180) / 360); linarith
+
+/-- **pointPolarToCart_total_any_az**: `point_polar_to_cart` succeeds for EVERY azimuth within the model's loop fuel
+(not only `[-180, 180]`), and its value is that of the representative of `az` in `[-180, 180)`. -/
+theorem pointPolarToCart_total_any_az (m : Nat) (az el d : ℝ)
+    (hf1 : 180 - 360 * (m + 1 : ℕ) ≤ az) (hf2 : az < -180 + 360 * ((m + 1 : ℕ) + 1)) :
+    ∃ (az0 : ℝ) (t : ℤ) (r : (ℝ × ℝ × ℝ) × Nat), az = az0 + 360 * t ∧ -180 ≤ az0 ∧ az0 < 180 ∧
+      pointPolarToCart (RP (m + 1)) az el d = some r ∧ pointPolarToCart (RP (m + 1)) az0 el d = some r := by
+  obtain ⟨az0, t, he, h1, h2⟩ := az_representative az
+  obtain ⟨r, hr⟩ := pointPolarToCart_total m az0 el d h1 (le_of_lt h2)
+  have hm : (0 : ℝ) ≤ ((m : ℕ) : ℝ) := Nat.cast_nonneg m
+  refine ⟨az0, t, r, he, h1, h2, ?_, hr⟩
+  rw [he, pointPolarToCart_periodic m az0 el d t (by push_cast; linarith) (by push_cast; linarith)
+    (by rw [← he]; exact hf1) (by rw [← he]; exact hf2)]
+  exact hr
 
 end Earverif.Conv
